@@ -19,7 +19,7 @@ ENTRY = {
         "termination proofs accepted by Lean as the finding channel: eval/evalList/evalCase/evalCoalesce, run/runList/runDefs, typeOf* (structural, nested inductive), likeMatch (well-founded on |pattern|+|string|), OptDriver.iterate/pass/finals (structural), passF/iterateF/finalsF (fuel)",
     ],
     "assumptions": [
-        "time limit: 10 s of CPU per statement on statements that are cheap by construction (tables of <= 60 rows outside the stand-alone 2 500/40 000-row tables; derived tables capped by LIMIT 20; CUBE <= 8 keys); a statement legitimately needing more is not generated",
+        "time limit: 10 s of CPU per statement (30 s on the 40 000-row spill setting) on statements that are cheap by construction (tables of <= 60 rows outside the stand-alone 2 500/40 000-row tables; derived tables capped by LIMIT 20; CUBE <= 8 keys); a statement legitimately needing more is not generated",
         "spilled ORDER BY uses plain column keys only (the spilled merge re-evaluates key expressions per comparison: 38 s for 20 000 rows, slow but finite - not judged here)",
         "dev profile (overflow checks on), the same profile as the shipped target/debug binary; overflow panics listed as C29-F6/F8 wrap silently in release builds",
         "SQL text is valid UTF-8 (ExecutionContext::sql takes &str): arbitrary bytes are mapped through from_utf8_lossy",
